@@ -66,6 +66,12 @@ func ibcProofHeight(w *World, t *Tx) clienttypes.Height {
 }
 
 func installIbcBuilders(st *IbcSt) {
+	installIbcChanBuilders()
+	installIbcPacketBuilders(st)
+}
+
+// installIbcChanBuilders: the loop-back channel handshake (used by every world that opens channels).
+func installIbcChanBuilders() {
 	RegisterTx("ibc_chan_init", func(w *World, t *Tx) (*Built, error) {
 		return &Built{Msgs: []sdk.Msg{channeltypes.NewMsgChannelOpenInit(ibcPort, ibcVersion, channeltypes.UNORDERED,
 			[]string{ibcexported.LocalhostConnectionID}, ibcPort, w.KeyByName(t.S).Bech())}}, nil
@@ -82,6 +88,9 @@ func installIbcBuilders(st *IbcSt) {
 		return &Built{Msgs: []sdk.Msg{channeltypes.NewMsgChannelOpenConfirm(ibcPort, t.A.Str("ch"),
 			localhost.SentinelProof, ibcProofHeight(w, t), w.KeyByName(t.S).Bech())}}, nil
 	})
+}
+
+func installIbcPacketBuilders(st *IbcSt) {
 	// ICS-20 transfer started by a Cosmos account.
 	RegisterTx("ibc_transfer", func(w *World, t *Tx) (*Built, error) {
 		sender := w.KeyByName(t.S).Bech()
